@@ -301,8 +301,8 @@ fn check_conc(setup: &[Rpc], conc: &[Rpc], bound: usize, st: &mut Stats) {
 }
 
 pub fn worker(wi: usize, wn: usize, tier: &str) {
-    let depth: usize = std::env::var("C14_DEPTH").ok().and_then(|s| s.parse().ok()).unwrap_or(if tier == "thorough" { 4 } else { 3 });
-    let bound: usize = if tier == "thorough" { 2 } else { 1 };
+    let depth: usize = std::env::var("C14_DEPTH").ok().and_then(|s| s.parse().ok()).unwrap_or(if tier == "thorough" { 5 } else { 3 });
+    let bound: usize = if tier == "thorough" { 3 } else { 1 };
     let rt = tokio::runtime::Builder::new_multi_thread().worker_threads(1).max_blocking_threads(2).enable_all().build().unwrap();
     let scratch = vcore::Scratch::new(&format!("c14w{wi}"));
     let alpha = alphabet();
@@ -400,14 +400,14 @@ pub fn run(tier: &str, replay: Option<&str>) -> i32 {
         }
         rep.report_bag(&r["violations"]);
     }
-    let depth: usize = std::env::var("C14_DEPTH").ok().and_then(|s| s.parse().ok()).unwrap_or(if tier == "thorough" { 4 } else { 3 });
+    let depth: usize = std::env::var("C14_DEPTH").ok().and_then(|s| s.parse().ok()).unwrap_or(if tier == "thorough" { 5 } else { 3 });
     let n = alphabet().len();
     ev.set("states", states.len() as u64);
     ev.set("transitions", tot["steps"] + tot["conc_points"]);
     ev.set("traces_validated_against_impl", tot["sequences"] + tot["conc_executions"]);
     ev.set("evaluations", tot["sequences"] + tot["conc_executions"]);
     ev.set("distinct_nontrivial", tot["at_limit"]);
-    ev.set("rule", format!("sequential: all {n}^{depth} sequences of one tenant (max_vectors = {LIMIT}, local ids 1-3) over Insert new / duplicate / NaN / wrong dimension, Delete present / absent, BatchDelete with duplicate ids and by filter, BulkInsert with a rejected item and across the limit, BulkLoadHnsw with an in-batch duplicate and over the limit, UpdateMetadata, FlushHotTier, Restart (persistent engine + the start-up recount); after EVERY step the server's counter (read through the child module) must equal the live documents carrying the tenant index, never exceed the limit, and a valid Insert of a new id is RESOURCE_EXHAUSTED only at the limit. request shapes: every id list of length <= 3 over {{1,2,3,absent}} (all adjacent / non-adjacent repeat patterns) as BatchDelete(ids), BulkInsert and BulkLoadHnsw from each of the 8 populations of <= {SHAPE_LIMIT} documents (max_vectors = {SHAPE_LIMIT} there, so that a counter driven below the live count is not masked by saturation at zero), followed by a refill Insert 1,2,3,4, same per-step oracle; and every bulk stream of length <= 3 over ids {{1,2,3}} x {{valid, rejected (wrong dimension)}} with at least one rejected item, as BulkInsert and BulkLoadHnsw, from the same populations. concurrent: 25 programs of two (one of three) RPCs on the same id (insert||delete, overwrite||delete, insert||insert, delete||delete, insert||batch delete by ids/filter, inserts at the limit) from three setups, every schedule with <= 1 (quick) / 2 (thorough) preemptions under ksched; after join counter == live <= limit. non-trivial = steps executed with the tenant exactly at its limit"));
+    ev.set("rule", format!("sequential: all {n}^{depth} sequences of one tenant (max_vectors = {LIMIT}, local ids 1-3) over Insert new / duplicate / NaN / wrong dimension, Delete present / absent, BatchDelete with duplicate ids and by filter, BulkInsert with a rejected item and across the limit, BulkLoadHnsw with an in-batch duplicate and over the limit, UpdateMetadata, FlushHotTier, Restart (persistent engine + the start-up recount); after EVERY step the server's counter (read through the child module) must equal the live documents carrying the tenant index, never exceed the limit, and a valid Insert of a new id is RESOURCE_EXHAUSTED only at the limit. request shapes: every id list of length <= 3 over {{1,2,3,absent}} (all adjacent / non-adjacent repeat patterns) as BatchDelete(ids), BulkInsert and BulkLoadHnsw from each of the 8 populations of <= {SHAPE_LIMIT} documents (max_vectors = {SHAPE_LIMIT} there, so that a counter driven below the live count is not masked by saturation at zero), followed by a refill Insert 1,2,3,4, same per-step oracle; and every bulk stream of length <= 3 over ids {{1,2,3}} x {{valid, rejected (wrong dimension)}} with at least one rejected item, as BulkInsert and BulkLoadHnsw, from the same populations. concurrent: 25 programs of two (one of three) RPCs on the same id (insert||delete, overwrite||delete, insert||insert, delete||delete, insert||batch delete by ids/filter, inserts at the limit) from three setups, every schedule with <= 1 (quick) / 3 (thorough) preemptions under ksched; after join counter == live <= limit. non-trivial = steps executed with the tenant exactly at its limit"));
     ev.set("samples", json!([alphabet()[9], alphabet()[11], {"concurrent": ["Insert(1)", "Delete(1)"], "setup": ["Insert(1)"]}]));
     ev.set("exhaustive", true);
     ev.set("sequences", tot["sequences"]);
